@@ -208,5 +208,3 @@ func replay(t *testing.T) {
 	jb, _ := json.Marshal(l)
 	out.Write(append(jb, '\n'))
 }
-
-func victim(t *testing.T) { t.Skip("crashsim victim not built yet") }
